@@ -222,3 +222,87 @@ func structFieldName(a *ssa.FieldAddr) string {
 	}
 	return fmt.Sprintf("f%d", a.Field)
 }
+
+// C15: a dashboard submission that fails the identifier check is rejected
+// before any SQL is issued: on every path from the failure branch of the
+// CheckUserInput test to the function's exit there is no database call and no
+// restart request.
+func flowSaveIntegration(w *World) []*Obligation {
+	name := "shovel/web.(*Handler).SaveIntegration:flow:rejected-before-any-sql"
+	fn := w.findFunc(repoMod+"/shovel/web", "(*Handler).SaveIntegration")
+	if fn == nil {
+		return []*Obligation{flowObl("C15", name, "function present", false, "not found")}
+	}
+	var checkCall *ssa.Call
+	for _, b := range fn.Blocks {
+		for _, ins := range b.Instrs {
+			if c, ok := ins.(*ssa.Call); ok && strings.HasSuffix(calleeName(c.Common()), "config.CheckUserInput") {
+				checkCall = c
+			}
+		}
+	}
+	if checkCall == nil {
+		return []*Obligation{flowObl("C15", name, "the submission is checked", false, "SaveIntegration does not call config.CheckUserInput")}
+	}
+	// the branch on err != nil
+	var failBlock *ssa.BasicBlock
+	for _, r := range *checkCall.Referrers() {
+		bin, ok := r.(*ssa.BinOp)
+		if !ok || bin.Op.String() != "!=" {
+			continue
+		}
+		for _, r2 := range *bin.Referrers() {
+			if iff, ok := r2.(*ssa.If); ok {
+				failBlock = iff.Block().Succs[0]
+			}
+		}
+	}
+	if failBlock == nil {
+		return []*Obligation{flowObl("C15", name, "the result of the check is tested", false, "no branch on the error returned by CheckUserInput")}
+	}
+	// the check must come before any database call
+	detail := ""
+	ok := true
+	seen := map[*ssa.BasicBlock]bool{}
+	var walk func(b *ssa.BasicBlock)
+	walk = func(b *ssa.BasicBlock) {
+		if seen[b] {
+			return
+		}
+		seen[b] = true
+		for _, ins := range b.Instrs {
+			if c, isCall := ins.(ssa.CallInstruction); isCall {
+				n := calleeName(c.Common())
+				if strings.Contains(n, "pgxpool.Pool).") || strings.HasSuffix(n, "Manager).Restart") || strings.Contains(n, "invoke.Exec") || strings.Contains(n, "invoke.Query") {
+					ok = false
+					detail += "after a failed identifier check the handler still calls " + n + "\n"
+				}
+			}
+		}
+		for _, s := range b.Succs {
+			walk(s)
+		}
+	}
+	walk(failBlock)
+	// and no database call may precede the check
+	before := true
+	for _, b := range fn.Blocks {
+		if !b.Dominates(checkCall.Block()) || b == checkCall.Block() {
+			continue
+		}
+		for _, ins := range b.Instrs {
+			if c, isCall := ins.(ssa.CallInstruction); isCall && strings.Contains(calleeName(c.Common()), "pgxpool.Pool).") {
+				before = false
+				detail += "a database call precedes the identifier check\n"
+			}
+		}
+	}
+	return []*Obligation{
+		flowObl("C15", name, "no database call and no restart on any path after a failed CheckUserInput", ok, detail),
+		flowObl("C15", "shovel/web.(*Handler).SaveIntegration:flow:checked-before-sql", "no database call before the identifier check", before, detail),
+	}
+}
+
+func init() {
+	flowChecks["C15"] = append(flowChecks["C15"], flowSaveIntegration)
+}
